@@ -1110,7 +1110,8 @@ class C19:
                   "from parseDecimal_fmtInt and decodeLong_twos); every counted string/bytes opcode delivers its payload unchanged as the "
                   "documented kind and AsString/AsBytes accept exactly unicode+py2-str / bytes+py2-str in both StrictUnicode modes "
                   "(C19_counted, C19_helpers); int64 and *big.Int forms of one integer are equal Dict keys with equal hash (C19_key). "
-                  "PARTIAL: the text forms STRING/UNICODE rest on the codec inverse lemmas of C03 (tied by correspondence here).")
+                  "The text forms STRING / UNICODE as the encoder writes them are covered by the codec inverse theorems of C03 (pyquote_inv, rue_inv); "
+                  "PARTIAL: STRING / UNICODE lines written by other picklers (CPython repr quoting) are tied by correspondence here.")
     level_note = "trusted: Lean kernel + standard axioms; decoder parse layer and typeconv model; strconv.ParseInt/big.SetString as `[+-]?[0-9]+`"
     technique = "Lean 4 proof (decimal and two's-complement round-trip lemmas, per-opcode evaluation) + differential correspondence over integers x forms"
     rule = ("integers: quick: -300..300, boundary lattice +-2^k+d (k<=70, and k up to 2031 for LONG1 widths 1..255), random 64-bit; "
